@@ -21,6 +21,9 @@ The oracle below is the property itself, evaluated on what the real process did:
   exit0                exit status 0 (not killed by a signal, not hung, no crash report)
   prompt               signal -> exit in less than 5 s
   nopanic              no "panic" / "fatal error" / goroutine dump on stdout/stderr
+  socket_gone          the IPC socket file is gone after the exit (the next start refuses to run while it is there)
+                       - all of these also when a second and third signal (the same again, the other one, SIGQUIT) arrive
+                       0 / 200 us / 2 ms / 20 ms after the first, while the shutdown is in progress: they must be absorbed
   blocked_error        a Lock blocked on a hold that is never released comes back with an error (or a transport error),
                        never locked=true
   no_hang              every call blocked / in flight at the signal returns within the bound; every stalled connection is
@@ -51,8 +54,12 @@ if __name__ == "__main__":
 from lib import vcheck
 
 LIMIT_MS = 5000
-CLAUSES = ["exit0", "prompt", "nopanic", "blocked_error", "no_hang", "file_keeps", "file_drops_unlocked",
+CLAUSES = ["exit0", "prompt", "nopanic", "socket_gone", "blocked_error", "no_hang", "file_keeps", "file_drops_unlocked",
            "restart_up", "restart_lists", "restart_refuses", "restart_unlock"]
+# further signals while the shutdown is in progress: offsets after the first signal, and what is sent
+EXTRA_OFFSETS_US = [0, 200, 700, 2000, 20000]
+EXTRA_KINDS = ["same", "other", "QUIT", "same+other", "other+QUIT"]
+EXTRA_SITUATIONS = ["none", "idle", "blocked", "mixed", "inflight", "many_idle", "holds"]
 SITUATIONS = ["none", "idle", "holds", "blocked", "blocked_wt", "rest_hold", "mixed", "inflight",
               "rest_stalled_body", "rest_stalled_headers", "rest_idle_keepalive", "grpc_stalled"]
 REST_ONLY = ("rest_hold", "rest_stalled_body", "rest_stalled_headers", "rest_idle_keepalive")
@@ -124,6 +131,53 @@ def matrix(seed, tier):
             sc = make_scenario(rng, "x%02d-%s-inflight" % (i, sig), sig, i % 5 != 4, i % 3 == 0, i % 4 == 1, "inflight",
                                rng.choice([0, 1000, 3000, 10000, 30000]))
             scs.append(sc)
+    return scs + double_signal_block(seed, tier)
+
+
+def extra_signals(first, kind, off, rng):
+    """The further signals of one scenario: `kind` names what is sent, `off` when the first of them is (us after the first
+    signal); a third one follows 150-3000 us later."""
+    other = "TERM" if first == "INT" else "INT"
+    names = {"same": [first], "other": [other], "QUIT": ["QUIT"], "same+other": [first, other], "other+QUIT": [other, "QUIT"]}[kind]
+    out, t = [], off
+    for n in names:
+        out.append({"signal": n, "after_us": t})
+        t += rng.choice([150, 700, 3000])
+    return out
+
+
+def double_signal_block(seed, tier):
+    """Scenarios in which a second (and third) signal arrives while the shutdown started by the first is in progress: the
+    same signal again, the other one, SIGQUIT; 0 / 200 us / 2 ms / 20 ms after the first; in situations whose shutdown takes
+    measurable time (blocked waiters, many connections, request loops, 20000 restored holds) and idle ones. Its own PRNG
+    stream, so that the cells of the matrix stay what they are. quick: every (kind, offset) pair once, situations and
+    configurations rotating; thorough: every pair in every situation, both signals."""
+    rng = random.Random(int(seed) * 1000003 + 23)
+    scs, k = [], 0
+    rot = rng.randrange(len(EXTRA_SITUATIONS))
+    sits = EXTRA_SITUATIONS if tier != "quick" else [None]
+    for sit0 in sits:
+        for sig in (("INT", "TERM") if tier != "quick" else (None,)):
+            for kind in EXTRA_KINDS:
+                for off in EXTRA_OFFSETS_US:
+                    sit = sit0 or EXTRA_SITUATIONS[(rot + k) % len(EXTRA_SITUATIONS)]
+                    first = sig or ("INT", "TERM")[k % 2]
+                    rest = k % 3 == 0
+                    sc = make_scenario(rng, "d%03d-%s-%s-%s@%d" % (k, first, sit, kind.replace("+", "_"), off), first, k % 5 != 4, rest, k % 4 == 1,
+                                       sit, rng.choice([0, 200, 1000]))
+                    sc["ipc"] = True
+                    sc["extra_signals"] = extra_signals(first, kind, off, rng)
+                    if sit == "many_idle":
+                        sc["conns"], sc["nlocks"] = rng.choice([60, 120]), 2
+                    scs.append(sc)
+                    k += 1
+    # the slowest shutdown there is: 20000 restored holds, 32 request loops
+    for i in range(2 if tier == "quick" else 8):
+        first = ("TERM", "INT")[i % 2]
+        sc = make_scenario(rng, "dp%02d-%s-preload-inflight" % (i, first), first, True, i % 3 == 1, False, "inflight", rng.choice([0, 20000]), preload=20000)
+        sc["workers"], sc["ipc"] = 32, True
+        sc["extra_signals"] = extra_signals(first, EXTRA_KINDS[i % len(EXTRA_KINDS)], [2000, 20000, 200, 5000][i % 4], rng)
+        scs.append(sc)
     return scs
 
 
@@ -267,6 +321,11 @@ def judge(o):
                 fail("prompt", "%s: %.0f ms from SIG%s to exit (limit %d ms)" % (tag, p["exit_ms"], sc["signal"], limit))
         if p.get("bad_output"):
             fail("nopanic", "%s: output has %r" % (tag, p["bad_output"][0][:200]))
+        if sc.get("ipc") and not p.get("hung"):       # a hung process is killed by the driver: the file is then the driver's doing
+            if p.get("ipc_socket_left"):
+                fail("socket_gone", "%s: the IPC socket file is still there after the exit (status %s %s)" % (tag, p.get("exit_code"), p.get("killed_by", "")))
+            else:
+                v.setdefault("socket_gone", "pass")
 
     proc("first run", r1)
     for b in o.get("blocked") or []:
@@ -322,6 +381,8 @@ def judge(o):
             fail("file_drops_unlocked", "hold %s was unlocked before the signal but is in the state file" % bad[0])
         v.setdefault("file_drops_unlocked", "pass")
     if rs.get("attempted"):
+        if rs.get("socket_blocked"):
+            fail("restart_up", "the next start refuses to run because the first run left its IPC socket file behind: %s" % rs["socket_blocked"][-300:])
         if not rp.get("started"):
             fail("restart_up", "the next start on the same state file and ports failed: %s" % (rp.get("start_err") or "")[-400:])
         else:
@@ -379,13 +440,14 @@ def short(o, v=None):
     rp = rs.get("proc") or {}
     s = {
         "scenario": o["scenario"],
-        "first_run": {k: r1.get(k) for k in ("exit_code", "killed_by", "exit_ms", "hung", "bad_output", "ipc_socket_left") if r1.get(k) not in (None, "", [])},
+        "first_run": {k: r1.get(k) for k in ("signal_sent", "extra_signals_sent", "exit_code", "killed_by", "exit_ms", "hung", "bad_output", "ipc_socket_left") if r1.get(k) not in (None, "", [])},
         "blocked_calls": o.get("blocked"), "stalled_connections": o.get("stalled"), "inflight": o.get("inflight"),
         "holds_live_at_signal": (o.get("must_keys") or [])[:6], "n_live": len(o.get("must_keys") or []) + (o.get("preloaded") or 0),
         "unlocked_before_signal": (o.get("must_not_keys") or [])[:4],
         "state_file_after_exit": {"decoded": (o.get("file") or {}).get("decoded"), "entries_total": (o.get("file") or {}).get("entries_total"),
                                   "entries": [(e["name"], e["key"]) for e in ((o.get("file") or {}).get("entries") or [])[:6]]},
-        "second_run": {"started": rp.get("started"), "exit_code": rp.get("exit_code"), "exit_ms": rp.get("exit_ms"),
+        "second_run": {"started": rp.get("started"), "socket_blocked": rs.get("socket_blocked"), "exit_code": rp.get("exit_code"), "killed_by": rp.get("killed_by"),
+                       "extra_signals_sent": rp.get("extra_signals_sent"), "exit_ms": rp.get("exit_ms"),
                        "ipc_listing": (rs.get("ipc_listing") or [])[:4], "ipc_listing_total": rs.get("ipc_listing_total"),
                        "probes": (rs.get("probes") or [])[:4]},
     }
@@ -579,6 +641,15 @@ def t4_stage(ctx, only=None, repeat=1, verbose=False, situations=None, clauses=N
         "unjudged": [{"id": sc["id"], "why": why[:200]} for sc, why in unjudged[:20]], "n_unjudged": len(unjudged),
         "clauses": counts,
         "per_client_situation": cells,
+        "further_signals_during_shutdown": {
+            "scenarios": sum(1 for o, _ in judged if o["scenario"].get("extra_signals")),
+            "signals_planned": sum(len(o["scenario"].get("extra_signals") or []) * 2 for o, _ in judged),
+            "delivered_while_the_process_was_still_running": sum(1 for o, _ in judged for pr in (o.get("run1") or {}, (o.get("restart") or {}).get("proc") or {})
+                                                                 for e in (pr.get("extra_signals_sent") or []) if e.get("while_live")),
+            "per_signal": {k: sum(1 for o, _ in judged for pr in (o.get("run1") or {}, (o.get("restart") or {}).get("proc") or {})
+                                  for e in (pr.get("extra_signals_sent") or []) if e.get("while_live") and e["signal"] == k) for k in ("INT", "TERM", "QUIT")},
+            "offsets_us": EXTRA_OFFSETS_US, "kinds": EXTRA_KINDS, "situations": EXTRA_SITUATIONS,
+        },
         "matrix": "signal{INT,TERM} x state_file{on,off} x rest{on,off} x no_clear{off,on} x client%s, %s; + inflight on a server restored from a 20000-hold state file%s" % (
             SITUATIONS, "each cell once" if ctx.tier == "quick" else "each cell 3 times with different timing offsets", "" if ctx.tier == "quick" else "; + 60 more inflight runs"),
         "signal_to_exit_ms": {"first_run": dist(plain), "first_run_with_20000_restored_holds": dist(pre), "second_run": dist(second),
@@ -619,7 +690,7 @@ def t4_stage(ctx, only=None, repeat=1, verbose=False, situations=None, clauses=N
 
 T4_RULE = ("T4: the real server binary built from the tree, one child process per scenario; the scenario list is the full matrix "
            "signal x state file x REST x no_clear x client situation incl. stalled raw connections (quick: each cell once; thorough: three times with different "
-           "signal offsets) plus requests-in-flight runs on a server restored from a 20000-hold state file; hold counts, leases, "
+           "signal offsets) plus requests-in-flight runs on a server restored from a 20000-hold state file, plus a block of scenarios with a second and third signal during the shutdown (kind x offset; thorough: x situation x first signal); hold counts, leases, "
            "waiters, wait timeouts, worker counts and offsets are drawn from one PRNG seeded with VERIF_SEED; evaluations = clause "
            "evaluations (pass or fail, not n/a) over all judged scenarios; distinct_nontrivial = distinct matrix cells with at "
            "least one client that were run to a verdict")
